@@ -1,7 +1,7 @@
 """C20 - the configured evolvent density is honoured."""
 import numpy as np
 
-from vlib import scenario, record
+from vlib import ambient, scenario, record
 
 LEVEL = "exploration"
 RULE = ("every evolventDensity m in 2..12 x every dimension N in 2..5 x boxes of every kind x objectives (cones, sines, linear, noise), the density given by constructor keyword, positionally, by attribute assignment, and by re-assigning it on one parameters object reused for several Solvers; each "
@@ -37,6 +37,8 @@ def cases(tier, seed):
         ms = [int(v) for v in rng.permutation(np.arange(2, min(12, 50 // N) + 1))[:5]]
         out.append({"sweep": ms, "N": N, "lower": lo, "upper": hi, "box": kind, "obj": obj, "r": 3.0, "eps": 0.02, "iters": 40, "m": ms[0],
                     "refine": False, "start": ["default", "ctor"][i % 2]})
+    # workloads written by the repository's authors (shipped examples, solving tests) under the same oracle
+    out += ambient.ambient_cases(tier)
     return out
 
 
@@ -84,6 +86,8 @@ def run_sweep(scn):
 
 
 def run_case(scn):
+    if "ambient" in scn:
+        return ambient.run_ambient_case(scn, "C20")
     if "sweep" in scn:
         return run_sweep(scn)
     t = record.run_solver(scn, listener=False)
